@@ -102,12 +102,13 @@ class EnumV:
 
 
 class RefV:
-    __slots__ = ("v", "slot", "loc")
+    __slots__ = ("v", "slot", "loc", "entry")
 
-    def __init__(self, v, slot=None, loc=None):
+    def __init__(self, v, slot=None, loc=None, entry=None):
         self.v = v
         self.slot = slot   # name of the caller's local this reference was taken from (for &mut write-back)
         self.loc = loc     # (object id, field index) when the reference points into an object's field (heap store)
+        self.entry = entry # (reference to the owning map, key) when the reference points at a map's value (get_mut)
 
     def __repr__(self):
         return "&%r" % (self.v,)
